@@ -40,7 +40,8 @@ PROPERTY = "C15"
 TECHNIQUE = "runtime monitoring; float64 numpy reference models (index-arithmetic Fourier placement, np.roll, direct plane-wave summation) on arrays returned by the real functions"
 RULE = ("interp cases: 0-2 batch axes (size 1-3) x 1-3 interpolated axes, every axis size 1-40 in and out (odd/even, "
         "up/down/same drawn per axis), dtypes float32/float64/int/complex64/complex128, content full-band, strictly "
-        "band-limited, Nyquist-only or constant, precision float64/float32, fft library fftw/numpy, both normalizations; "
+        "band-limited, Nyquist-only or constant, precision float64/float32, fft library fftw (planner MEASURE/ESTIMATE) or "
+        "numpy, both normalizations; "
         "shift cases: complex grids 1-40 x 1-40 with batch axes and batches of positions, integer (negative, > grid, "
         "up to 1e6) and fractional shifts; downsample cases: band-limited waves 6-40 gpts, 0-2 ensemble axes, eager/lazy "
         "chunkings, gpts=/cutoff/valid/angle. non-trivial = at least one axis changes size with non-constant content, a "
@@ -48,14 +49,14 @@ RULE = ("interp cases: 0-2 batch axes (size 1-3) x 1-3 interpolated axes, every 
 CLAUSES = ["roundtrip", "values-mean", "intensity", "band-content", "shift-roll", "shift-compose",
            "shift-compose-roll", "downsample-content", "downsample-grid"]
 QUICK = dict(n=1400, time=40)
-THOROUGH = dict(n=48000, time=300, shards=16)
+THOROUGH = dict(n=32000, time=240, shards=16)
 ASSUMPTIONS = ["band-limited = no Fourier content at or above the Nyquist index of the smaller grid in any resampled axis",
                "fft_shift is judged for complex input only (abTEM's fftw fft2 refuses real arrays; all internal callers pass complex probes)"]
 
 FINDING = "C15-real-even-upsample-nyquist"
 
 # tolerances, relative to max|reference| (calibrated: see final report; >= 10x head-room)
-TOL = {"float64": 5e-13, "float32": 1e-5}
+TOL = {"float64": 1.5e-12, "float32": 4e-5}
 
 
 # --------------------------------------------------------------------------- generation
@@ -340,7 +341,8 @@ def check_interp(ctx, case):
         rt_i = np.asarray(fft_interpolate(up_i, old_shape, normalization="intensity"))
     ctx.monitor("fft_interpolate-calls", 4)
     ctx.expect(np.array_equal(given, given0), "input-not-mutated")
-    ctx.expect(np.iscomplexobj(up_v) == cplx, "dtype-kind", got=str(up_v.dtype), input=str(given.dtype))
+    if np.iscomplexobj(up_v) != cplx:      # not part of the statement: recorded, not judged
+        ctx.note("dtype-kind-changed")
 
     # ---- round trip (content is band-limited along every axis that goes down, by construction)
     if case["content"] != "full" or not any_down:
@@ -416,7 +418,7 @@ def check_shift(ctx, case):
 
     def tol(pmax):
         # phase error of exp(-2 pi i k p): ~ eps * pi * |p| per axis, plus FFT round-off
-        return (TOL["float32"] if f32 else TOL["float64"]) + 30 * eps * pmax
+        return (TOL["float32"] if f32 else TOL["float64"]) + 50 * eps * pmax
 
     x0 = x.copy()
     with abtem.config.set({"precision": case["precision"], "fftw.planning_effort": case["plan"]}):
@@ -488,7 +490,8 @@ def check_downsample(ctx, case):
             want = want * (n0 * n1) / float(m0 * m1)
         waves = build(psi)
         out = waves.downsample(normalization=case["normalization"], **kwargs)
-        ctx.expect(bool(out.is_lazy) == case["lazy"], "downsample-laziness")
+        if bool(out.is_lazy) != case["lazy"]:
+            ctx.note("downsample-laziness-changed")
         got = np.asarray(out.compute().array if case["lazy"] else out.array)
         ctx.monitor("downsample-lazy" if case["lazy"] else "downsample-eager")
     ctx.nontrivial((m0, m1) != (n0, n1))
